@@ -63,9 +63,18 @@ func genInstance(t *rapid.T, s *LSchema, maxOcc int) []byte {
 	var pieces [][]byte
 	for _, f := range s.Fields {
 		nocc := rapid.SampledFrom([]int{0, 0, 1, 1, 2, 3, maxOcc}).Draw(t, "nocc")
+		// 1 in 5: THIS message carries the number with another wire type than the schema's other messages do (packed
+		// instead of unpacked and vice versa, a scalar where others have a string or a sub-message, ...) - legal: one
+		// wire type per number is a rule within a message, not across the messages one Decoder sees
+		plan := f.Plan
+		if rapid.IntRange(0, 4).Draw(t, "otherwt") == 0 {
+			alts := map[string][]string{"varint": {"packed-varint", "bytes", "fixed64"}, "packed-varint": {"varint", "fixed32"}, "fixed32": {"packed-fixed32", "varint"},
+				"packed-fixed32": {"fixed32", "bytes"}, "fixed64": {"packed-fixed64", "varint"}, "packed-fixed64": {"fixed64", "bytes"}, "bytes": {"varint", "fixed32"}, "nested": {"varint", "fixed64"}}
+			plan = rapid.SampledFrom(alts[f.Plan]).Draw(t, "altplan")
+		}
 		for i := 0; i < nocc; i++ {
 			var b []byte
-			switch f.Plan {
+			switch plan {
 			case "varint":
 				b = refwire.AppendVarint(refwire.AppendKey(nil, f.Num, 0), wiregen.U64().Draw(t, "v"))
 			case "fixed32":
@@ -424,7 +433,7 @@ func genPCase(t *rapid.T) *PCase {
 	return c
 }
 
-const ruleC14 = "case = options {safe, fast} x WithMaxBufferSize {unset, 0, 1, 2, 1024} x buffer filter {none, halving, to-zero, negative} + one definition (schema with 1..5 numbers, nested to depth 2) + a pool of 2..6 inputs of differing shapes (each number 0..5 occurrences, nested counts above and below the buffer limit, 1 in 12 nested elements not itself a well-formed message) + a program of <= 40 ops {Decode(i), accessor query incl. NestedResult(s) paths, Range, Close, keep a NestedResult handle, Close a kept nested handle - before or after its parent was closed} on one Decoder; " +
+const ruleC14 = "case = options {safe, fast} x WithMaxBufferSize {unset, 0, 1, 2, 1024} x buffer filter {none, halving, to-zero, negative} + one definition (schema with 1..5 numbers, nested to depth 2) + a pool of 2..6 inputs of differing shapes (each number 0..5 occurrences, nested counts above and below the buffer limit, 1 in 12 nested elements not itself a well-formed message, 1 in 5 numbers carried with another wire type than in the pool's other inputs) + a program of <= 40 ops {Decode(i), accessor query incl. NestedResult(s) paths, Range, Close, keep a NestedResult handle, Close a kept nested handle - before or after its parent was closed} on one Decoder; " +
 	"model: every live handle remembers its input; each accessor must equal the reference parse of THAT input; in safe mode every slice/string handed out is re-read after every later step (incl. after Close and after the decoder re-used the pooled object) and must be unchanged; no op panics; finally everything is closed, every input decoded again and the hand-outs re-checked; " +
 	"non-trivial = a program in which a recycled result (same pointer as an earlier closed one) is read; distinct by case content"
 
